@@ -419,6 +419,44 @@ def builder_oracle(args):
         back = MPO.from_matrix(m, 2).to_matrix()
         if not np.allclose(back, m, atol=1e-9):
             return f"from_matrix(...).to_matrix() differs from the input by {np.max(np.abs(back - m)):.3e} (n={n})"
+        # matrices with structure: a weak term next to strong ones, a small overall scale, an explicit cutoff.  Singular values <= cutoff
+        # are discarded (documented): at each of the n-1 cuts that costs at most sqrt(d^n) * cutoff in Frobenius norm
+        var = args.get("variant")
+        if var and n >= 2:
+            d = int(args.get("d", 2))
+            nn = max(2, min(n + 1, 4 if d == 2 else 3))
+
+            def rnd_local():
+                x = rng.normal(size=(d, d)) + 1j * rng.normal(size=(d, d))
+                return x + x.conj().T
+
+            def term():
+                return dense.kron_all([rnd_local() if rng.random() < 0.7 else np.eye(d, dtype=complex) for _ in range(nn)])
+
+            strong = sum(term() for _ in range(3))
+            strong = strong / np.max(np.abs(strong))
+            weak = term()
+            weak = weak / np.max(np.abs(weak))
+            cutoff = 1e-12
+            if var == "weak":
+                eps = float(args.get("eps", 1e-8))
+                mat, what = strong + eps * weak, f"three strong terms + {eps:g} x one more term"
+            elif var == "tiny":
+                eps = float(args.get("eps", 1e-7))
+                mat, what = eps * (strong + 0.3 * weak), f"overall scale {eps:g}"
+            else:
+                cutoff, eps = 1e-4, 3e-3
+                mat, what = strong + eps * weak, f"cutoff={cutoff:g} with a term of size {eps:g}"
+            mpo = MPO.from_matrix(mat, d, cutoff=cutoff) if var == "cutoff" else MPO.from_matrix(mat, d)
+            back = np.asarray(mpo.to_matrix())
+            allowed = (nn - 1) * np.sqrt(float(d) ** nn) * cutoff + 1e-13 * float(np.max(np.abs(mat)))
+            err = float(np.max(np.abs(back - mat)))
+            if back.shape != mat.shape or err > allowed:
+                return (f"from_matrix on {nn} sites of dimension {d} ({what}): to_matrix() differs from the input by {err:.3e}; discarding singular values "
+                        f"<= {cutoff:g} allows at most {allowed:.1e}")
+            sp = mpo.to_sparse_matrix().toarray()
+            if not np.allclose(sp, back, atol=1e-12 + 1e-9 * float(np.max(np.abs(mat)))):
+                return f"from_matrix ({what}): sparse and dense conversions of the factorised operator disagree"
         return None
     if kind == "bose_hubbard":
         L, d = args["L"], args["d"]
@@ -595,6 +633,8 @@ def search(ctx):
         a = dict(kind=kind, seed=int(r.integers(0, 2**31)), L=int(r.integers(1 if kind == "pauli_sum" else 2, 6)), bc=str(r.choice(["open", "periodic"])), d=int(r.integers(2, 4)))
         if kind == "from_matrix":
             a["L"] = int(r.integers(1, 4))
+            a["variant"] = ["weak", "tiny", "cutoff", None][(k // 7) % 4]
+            a["eps"] = float(10.0 ** r.uniform(-9.5, -6.5))
         if kind == "bose_hubbard":
             a["L"] = int(r.integers(1, 6))
         if kind == "coupled_transmon":
